@@ -1035,9 +1035,9 @@ func init() { vrt.Register("VerifC10_NestedByName", VerifC10_NestedByName) }
 func VerifC10_NestedByName() {
 	byName := vrt.Param("BYNAME") != 0
 	ca, cb := vrt.Param("CA"), vrt.Param("CB")
-	op := vrt.Param("OP") // 0 set xs[IDX] (IDX == CA appends), 1 unset xs[IDX]
+	op := vrt.Param("OP") // 0 set xs[IDX] (IDX == CA appends), 1 unset xs[IDX], 2 set the absent mid.s, 3 unset the present mid.s
 	idx := vrt.Param("IDX")
-	if idx > ca || (op == 1 && idx >= ca) {
+	if (op < 2 && (idx > ca || (op == 1 && idx >= ca))) || (op >= 2 && idx != 0) {
 		vrt.Reach("skip")
 		return
 	}
@@ -1065,9 +1065,12 @@ func VerifC10_NestedByName() {
 		ys[i] = verifC10Str(1)
 	}
 	nv := verifC10Str(2)
+	hasS := op != 2
 	enc := func(xs [][]byte) []byte {
 		var m []byte
-		m = gpw.AppendBytes(gpw.AppendTag(m, 1, gpw.BytesType), sv)
+		if hasS {
+			m = gpw.AppendBytes(gpw.AppendTag(m, 1, gpw.BytesType), sv)
+		}
 		for _, x := range xs {
 			m = gpw.AppendBytes(gpw.AppendTag(m, 2, gpw.BytesType), x)
 		}
@@ -1081,7 +1084,15 @@ func VerifC10_NestedByName() {
 	v := NewRootValue(req, src)
 	var want [][]byte
 	var err error
-	if op == 0 {
+	if op == 2 {
+		var exist bool
+		exist, err = v.SetByPath(NewNodeString(string(nv)), fld(1, "mid"), fld(1, "s"))
+		vrt.Assert(!exist, "C10.nested-by-name.set-absent.exist-flag")
+		want, sv, hasS = xs, nv, true
+	} else if op == 3 {
+		err = v.UnsetByPath(fld(1, "mid"), fld(1, "s"))
+		want, hasS = xs, false
+	} else if op == 0 {
 		_, err = v.SetByPath(NewNodeString(string(nv)), fld(1, "mid"), fld(2, "xs"), NewPathIndex(idx))
 		want = append([][]byte{}, xs...)
 		if idx == ca {
